@@ -29,7 +29,7 @@ import re
 import subprocess
 import sys
 
-sys.path.insert(0, '/repo/src')
+sys.path.insert(0, __import__('os').path.join(__import__('os').environ.get('VERIF_REPO', '/repo'), 'src'))
 from bumpver import setuptools_v65_version as sv  # noqa: E402
 
 DRIVER = '/verif/lean/.lake/build/bin/driver'
